@@ -10,7 +10,7 @@ RULE = ('message dicts over the encoding domain (fixed text of any length: trunc
         'implementation bytes compared byte-for-byte with an independent reference encoder and its decoding key-for-key with '
         'an independent reading of the reference bytes; non-trivial = distinct message with at least one element')
 CODEC_ALIASES = True     # one implementation run in three is given an alias spelling of the codec name (worker.for_impl)
-CALL_VARIANTS = True     # bytearray / memoryview messages and earlier failing calls around the harness's loads / dumps calls (worker.install_call_variants)
+CALL_VARIANTS = True     # bytearray messages, positional arguments and earlier failing calls around the harness's loads / dumps calls (worker.install_call_variants)
 EXHAUSTIVE = {'thorough': True}
 ASSUMPTIONS = ['integers are in-width and non-negative (an over-wide integer is a caller error outside every property)',
                'DE43_* entries are compared with the regex model (pattern translated on every run) and, for the packaged pattern, with an independent non-regex reading']
